@@ -431,10 +431,11 @@ FView(l, typed, sess) ==
 \* custom payload and trace id.
 ExpView(l, typed, comp, sess, api, iterapi) ==
   [panic |-> "", perr |-> "",
-   hv |-> IF api THEN 0 ELSE l.v, hresp |-> ~api,
-   hflags |-> IF api THEN 0 ELSE HFlags(l) + (IF comp THEN HF_COMPRESS ELSE 0),
-   hstream |-> IF sess THEN 0 ELSE l.stream, hop |-> IF api THEN 0 ELSE Opcode(l.kind),
-   hlen |-> IF api THEN 0 ELSE IF comp THEN -1 ELSE Len(FullBody(l)),
+   \* the header is only observable at framer level (through a session it is the driver's private state)
+   hv |-> IF sess THEN 0 ELSE l.v, hresp |-> ~sess,
+   hflags |-> IF sess THEN 0 ELSE HFlags(l) + (IF comp THEN HF_COMPRESS ELSE 0),
+   hstream |-> IF sess THEN 0 ELSE l.stream, hop |-> IF sess THEN 0 ELSE Opcode(l.kind),
+   hlen |-> IF sess THEN 0 ELSE IF comp THEN -1 ELSE Len(FullBody(l)),
    rem0 |-> IF sess THEN -1 ELSE IF l.kind = "RESULT_ROWS" THEN Len(WRowsContent(l.b.rows)) ELSE 0,
    trace |-> IF l.tracing THEN l.traceid ELSE <<>>,
    warnings |-> IF l.warn /\ ~api THEN l.warnings ELSE <<>>,
